@@ -216,6 +216,43 @@ pub fn decision_gens(tier: Tier) -> Vec<(String, Vec<u8>)> {
             }
         }
     }
+    // sequences whose offset codes are spread evenly over 13 codes, plus one code used once: the scaled histogram
+    // of the offset table reaches its largest sums here (ordinary data has a peaked offset distribution). Copies
+    // are taken from bytes that are not themselves copies, so the match finder reports the planted distances.
+    for per_code in [19usize, 28] {
+        let mut rnd = cmp::xorshift(4242 + per_code as u64);
+        let mut v: Vec<u8> = (0..66_000).map(|_| (rnd() >> 24) as u8).collect();
+        let mut fresh = vec![true; v.len()];
+        let mut plant = |v: &mut Vec<u8>, fresh: &mut Vec<bool>, rnd: &mut dyn FnMut() -> u64, lo: usize, hi: usize, len: usize| {
+            for _ in 0..120 {
+                v.push((rnd() >> 24) as u8);
+                fresh.push(true);
+            }
+            let pos = v.len();
+            let (offset, len) = loop {
+                let offset = lo + (rnd() >> 16) as usize % (hi.min(pos) - lo + 1);
+                let len = len.min(offset);
+                if fresh[pos - offset..pos - offset + len].iter().all(|f| *f) {
+                    break (offset, len);
+                }
+            };
+            for i in 0..len {
+                v.push(v[pos - offset + i]);
+                fresh.push(false);
+            }
+        };
+        plant(&mut v, &mut fresh, &mut rnd, 10, 10, 10);
+        for _ in 0..per_code {
+            for code in 4..=16u32 {
+                plant(&mut v, &mut fresh, &mut rnd, (1usize << code) - 3, (1usize << (code + 1)) - 4, 40);
+            }
+        }
+        for _ in 0..120 {
+            v.push((rnd() >> 24) as u8);
+        }
+        assert!(v.len() < B);
+        gens.push((format!("offset codes 4..=16 used {per_code} times each, one short-distance copy"), v));
+    }
     gens
 }
 
